@@ -17,7 +17,9 @@ RULE = (
     "optional regulated port-ID, message or service) or a malformed file name (missing / extra / non-numeric components, dots in "
     "directory names) x a designation for read_files: target absolute / relative to cwd / ./-prefixed / relative to the root's parent; "
     "root as absolute path, relative path, bare root-namespace name, several bare names in either order (one also naming a nested namespace), via a symlink, or omitted (inferred from a relative target); cwd = "
-    "the root's parent, the workspace top or elsewhere; Path vs str - and read_namespace.  Oracle: an independent path model: full_name, "
+    "the root's parent, the workspace top or elsewhere; target and / or root spelled through a symbolic link into a sibling directory followed by `..`; Path vs str - and read_namespace.  Part `multi`: 2..4 "
+    "targets in one call, the root namespace contributed by one or two separate trees (same namespace name under different parents), targets absolute / relative to the "
+    "roots' parents / mixed, roots absolute or a bare name, lists in either order.  Oracle: an independent path model: full_name, "
     "version, fixed_port_id, source_file_path (same file), source_file_path_to_root (same directory) are those encoded in the path and "
     "identical for every designation that designates the file at all; malformed names raise InvalidDefinitionError.  Non-trivial = "
     "nesting depth >= 2, or a non-absolute designation, or a malformed name."
@@ -42,9 +44,12 @@ def layout_path(case: typing.Any) -> typing.Tuple[str, str]:
     return root_rel, os.path.join(root_rel, *case["ns"], fn)
 
 
+N_DESIGNATIONS = 15
+
+
 def designate(case: typing.Any, base: str, root_rel: str, file_rel: str) -> typing.Tuple[str, typing.Any, typing.Any, str]:
     """Returns (cwd, target argument, roots argument, label)."""
-    mode = case["designation"] % 11
+    mode = case["designation"] % N_DESIGNATIONS
     root_abs = os.path.join(base, root_rel)
     file_abs = os.path.join(base, file_rel)
     parent_abs = os.path.dirname(root_abs)
@@ -77,6 +82,25 @@ def designate(case: typing.Any, base: str, root_rel: str, file_rel: str) -> typi
         extra = case["ns"][0] if case["ns"] else "unrelated"
         names = [extra, case["root"], "another"] if mode == 9 else ["another", case["root"], extra]
         return base, P(file_abs), names, "abs-target,several-bare-names:" + ("inner-first" if mode == 9 else "outer-first")
+    if mode in (11, 12, 13, 14):
+        # a symbolic link into a *sibling* of the root ("current -> releases/v2/build"), followed by "..": for the operating system
+        # that is the root's parent (".." is taken where the link points), lexically it is the directory that holds the link
+        build = os.path.join(parent_abs, "build")
+        os.makedirs(build, exist_ok=True)
+        linkdir = os.path.join(base, "linkdir")
+        os.makedirs(linkdir, exist_ok=True)
+        cur = os.path.join(linkdir, "current")
+        if not os.path.lexists(cur):
+            os.symlink(build, cur)
+        via = os.path.join(cur, "..", from_parent)
+        root_via = os.path.join(cur, "..", case["root"])
+        if mode == 11:
+            return base, P(via), [P(root_abs)], "target-through-link-dotdot,abs-root"
+        if mode == 12:
+            return base, P(via), [P(root_via)], "target-through-link-dotdot,root-through-link-dotdot"
+        if mode == 13:
+            return base, P(via), [case["root"]], "target-through-link-dotdot,bare-root-name"
+        return linkdir, P(os.path.join("current", "..", from_parent)), [P(os.path.join("current", "..", case["root"]))], "relative-target-through-link-dotdot,relative-root-through-link-dotdot"
     link = os.path.join(base, "lnk")
     if not os.path.lexists(link):
         os.symlink(parent_abs, link)
@@ -137,8 +161,83 @@ def check_identity(case: typing.Any, ctx: Ctx) -> Info:
         require(got2 == want, "identity:read_namespace", want, got2, where)
     finally:
         ctx.cleanup(d)
-    nontrivial = len(case["ns"]) >= 2 or case["designation"] % 11 != 0
+    nontrivial = len(case["ns"]) >= 2 or case["designation"] % N_DESIGNATIONS != 0
     classes = ["designation:" + label, "depth:%d" % len(case["ns"]), "port" if case["port"] is not None else "no-port", "service" if case["service"] else "message"]
+    return Info(nontrivial, classes, sample=where)
+
+
+def check_multi(case: typing.Any, ctx: Ctx) -> Info:
+    """Several targets in one call; the root namespace may be contributed by two separate trees (documented for
+    source_file_path_to_root); every returned type must be what its own path spells."""
+    import pydsdl
+
+    d = ctx.scratch()
+    try:
+        root = case["root"]
+        trees = ["proj_a", "proj_b"]
+        files = []
+        seen = set()
+        for f in case["files"]:
+            key = (f["short"].lower(), tuple(f["version"]))
+            if f["short"].lower() in seen:
+                continue
+            seen.add(f["short"].lower())
+            if f["port"] is not None and ("port", f["port"]) in seen:
+                f = dict(f, port=None)  # (two types on one port-ID are a C11 matter, not this property's)
+            seen.add(("port", f["port"]))
+            port = "" if f["port"] is None else "%d." % f["port"]
+            fn = "%s%s.%d.%d.dsdl" % (port, f["short"], f["version"][0], f["version"][1])
+            tree = trees[f["tree"] % (2 if case["two_trees"] else 1)]
+            rel_to_parent = os.path.join(root, *f["ns"], fn)
+            absf = os.path.join(d, tree, rel_to_parent)
+            os.makedirs(os.path.dirname(absf), exist_ok=True)
+            with open(absf, "w") as fh:
+                fh.write("@sealed\n")
+            files.append((f, tree, rel_to_parent, absf))
+        if not files:
+            return Info(False, ["multi", "empty"])
+        os.makedirs(os.path.join(d, "elsewhere"), exist_ok=True)
+        used_trees = sorted({t for _, t, _, _ in files})
+        roots_abs = [os.path.join(d, t, root) for t in (trees if case["two_trees"] else trees[:1])]
+        for r in roots_abs:
+            os.makedirs(r, exist_ok=True)
+        style = case["style"] % 4
+        as_path = case["as_path"]
+
+        def P(x: str) -> typing.Any:
+            return pathlib.Path(x) if as_path else x
+
+        if style == 0:
+            targets, roots, label = [P(a) for _, _, _, a in files], [P(r) for r in roots_abs], "abs-targets,abs-roots"
+        elif style == 1:
+            targets, roots, label = [P(a) for _, _, _, a in files], [root], "abs-targets,bare-root-name"
+        elif style == 2:
+            targets, roots, label = [P(r) for _, _, r, _ in files], [P(r) for r in roots_abs], "lookup-relative-targets,abs-roots"
+        else:
+            targets = [P(r) if i % 2 else P(a) for i, (_, _, r, a) in enumerate(files)]
+            roots, label = [P(r) for r in roots_abs], "mixed-targets,abs-roots"
+        if case["reverse_roots"]:
+            roots = list(reversed(roots))
+        if case["reverse_targets"]:
+            targets = list(reversed(targets))
+        where = "multi %s: targets=%r roots=%r" % (label, targets, roots)
+        with nu.cwd(os.path.join(d, "elsewhere")):
+            (direct, trans), _ = guarded(pydsdl.read_files, targets, roots, None, None, True, what="read_files:multi:" + label)
+        want = sorted(
+            (".".join([root] + f["ns"] + [f["short"]]), tuple(f["version"]), f["port"], os.path.realpath(a), os.path.realpath(os.path.join(d, t, root)))
+            for f, t, _, a in files
+        )
+        got = sorted(
+            (t.full_name, (t.version.major, t.version.minor), t.fixed_port_id, os.path.realpath(str(t.source_file_path)), os.path.realpath(str(t.source_file_path_to_root)))
+            for t in direct
+        )
+        require(not trans, "multi:transitive-not-empty", [], [str(t) for t in trans], where)
+        require(got == want, "identity:multi", want, got, where)
+    finally:
+        ctx.cleanup(d)
+    same_dir = len({os.path.dirname(r) for _, _, r, _ in files}) < len(files)
+    nontrivial = len(files) >= 2 and (len(used_trees) == 2 or style >= 2)
+    classes = ["multi:" + label, "files:%d" % len(files), "trees:%d" % len(used_trees)] + (["same-spelled-directory"] if same_dir else [])
     return Info(nontrivial, classes, sample=where)
 
 
@@ -184,9 +283,29 @@ def parts(ctx: Ctx) -> typing.List[Part]:
             "version": st.tuples(st.sampled_from([0, 1, 2, 100, 255]), st.sampled_from([0, 1, 7, 255])).filter(lambda v: v != (0, 0)).map(list),
             "port": st.one_of(st.none(), st.none(), st.sampled_from([0, 1, 255, 511, 6144, 7000, 8191, 300])),
             "service": st.booleans(),
-            "designation": st.integers(0, 10),
+            "designation": st.integers(0, N_DESIGNATIONS - 1),
             "as_path": st.booleans(),
         }
     ).filter(lambda c: c["port"] is None or (c["port"] <= 511 if c["service"] else True))
     malformed = st.fixed_dictionaries({"name": st.integers(0, len(MALFORMED) - 1), "ns": st.lists(st.sampled_from(SUBS), max_size=2, unique=True), "dotted_dir": st.sampled_from([False, False, False, True])})
-    return [Part("identity", ident, check_identity, weight=4), Part("malformed", malformed, check_malformed, weight=1)]
+    one_file = st.fixed_dictionaries(
+        {
+            "tree": st.integers(0, 1),
+            "ns": st.lists(st.sampled_from(SUBS[:2]), max_size=2, unique=True),
+            "short": st.sampled_from(SHORTS + ["Imu", "Baro"]),
+            "version": st.tuples(st.sampled_from([0, 1, 2, 100]), st.sampled_from([1, 7, 255])).map(list),
+            "port": st.one_of(st.none(), st.none(), st.sampled_from([0, 255, 2000, 7000])),
+        }
+    )
+    multi = st.fixed_dictionaries(
+        {
+            "root": st.sampled_from(NAMES),
+            "files": st.lists(one_file, min_size=2, max_size=4),
+            "two_trees": st.sampled_from([True, True, False]),
+            "style": st.integers(0, 3),
+            "as_path": st.booleans(),
+            "reverse_roots": st.booleans(),
+            "reverse_targets": st.booleans(),
+        }
+    )
+    return [Part("identity", ident, check_identity, weight=4), Part("multi", multi, check_multi, weight=2), Part("malformed", malformed, check_malformed, weight=1)]
